@@ -91,7 +91,11 @@ void harness(void)
 	for (i = 0; i < N; i++) in[i] = V_IN_U8("in");
 #elif MODE == 3
 	/* mostly concrete option line: k <0..2 blanks> = <0..1 blank> <0..1 value char> \n */
+#ifdef NB
+	nb = NB; na = NA; vl = VL;      /* driver-side case split: text shape concrete, value character symbolic */
+#else
 	nb = V_IN_RANGE("blanks_before_assign", 0, 2); na = V_IN_RANGE("blanks_after_assign", 0, 1); vl = V_IN_RANGE("vallen", 0, 1);
+#endif
 	val[0] = V_IN_BOOL("vb") ? 'b' : 'a';
 	put('k');
 	if (nb > 0) put(' ');
